@@ -1,11 +1,20 @@
 """C12 - queries only read: bucket data is unchanged and scoped to the query window."""
+S = "aw_datastore.storages.sqlite.SqliteStorage."
 PROP = dict(
     id="C12",
     level="other",
-    contract_modules=["contracts.models"],
-    spec_modules=["contracts.models"],
-    functions=[],
+    contract_modules=["contracts.models", "contracts.sqlite"],
+    spec_modules=["contracts.sqlite"],
+    functions=[dict(fn=S + "get_events", rt_skip=True),
+               dict(fn=S + "get_eventcount", rt_skip=True),
+               dict(fn=S + "get_event", rt_skip=True),
+               dict(fn=S + "get_metadata", rt_skip=True),
+               dict(fn=S + "buckets", rt_skip=True),
+               dict(fn="aw_datastore.storages.sqlite._rows_to_events", rt_skip=True),
+               dict(fn=S + "commit", rt_skip=True)],
+    timeout_s=20,
     extra=[lambda run: run.storage_mode("c12", what="17 query programs (annotating, re-timing, failing midway) on populated stores: bucket dumps before/after, query_bucket vs direct windowed read")],
-    technique="run-time check of the real code (bounded); contract-based proof is layered on top where built",
-    explanation="bounded: on each back end, two populated buckets are dumped (events and metadata), 17 query programs are run with random windows at several UTC offsets - including programs that annotate, clear or re-time events in place and programs that raise midway (unknown function, unknown bucket, wrong arity, undefined variable) - and the dumps must be identical afterwards; query_bucket(b) must equal a direct windowed read of b over the query's start and end, query_bucket_eventcount the matching count.",
+    technique="run-time check of the real code (bounded); with the read methods of the sqlite store proved pure against contracts over the table state",
+    explanation="deductive (sqlite): every read method a query can reach (get_events, get_eventcount, get_event, get_metadata, buckets) leaves every event row and every bucket row of every bucket exactly as it was and issues no statement (postconditions over the whole table state; the flush a read performs only moves the committed mark), writes nothing outside the connection and its own fresh objects (frame obligations), and hands out fresh Event objects with fresh data dicts, so that whatever a query does to the events it was given cannot reach the store. The query functions themselves (aw_query) and the other back ends are only bounded. " 
+                "bounded: on each back end, two populated buckets are dumped (events and metadata), 17 query programs are run with random windows at several UTC offsets - including programs that annotate, clear or re-time events in place and programs that raise midway (unknown function, unknown bucket, wrong arity, undefined variable) - and the dumps must be identical afterwards; query_bucket(b) must equal a direct windowed read of b over the query's start and end, query_bucket_eventcount the matching count.",
 )
